@@ -643,6 +643,67 @@ def rsoup(r, depth=0):
 
 
 # ------------------------------------------------------------------------------------------------
+# real file objects: the same bytes through every kind of binary stream the reader meets in practice
+# ------------------------------------------------------------------------------------------------
+class ShortRaw(io.RawIOBase):
+    """a raw stream that hands out at most `chunk` bytes per readinto (sockets, pipes, slow disks)"""
+    def __init__(self, data, chunk):
+        self.data, self.pos, self.chunk = data, 0, chunk
+    def readable(self): return True
+    def readinto(self, b):
+        n = min(len(b), self.chunk, len(self.data) - self.pos)
+        b[:n] = self.data[self.pos:self.pos + n]; self.pos += n
+        return n
+
+
+FOBJ_KINDS = ["open", "open16", "open64", "open4096", "open0", "short1", "short7", "short4096", "pipe"]
+
+
+def read_through(kind, data, tmpdir):
+    """run the real FlowReader over `data` delivered through the given kind of file object -> ([n, end], states)"""
+    if kind.startswith("open"):
+        path = os.path.join(tmpdir, "f.mitm")
+        with open(path, "wb") as fo: fo.write(data)
+        buffering = {"open": -1, "open0": 0}.get(kind, int(kind[4:] or 0) if kind not in ("open", "open0") else -1)
+        with open(path, "rb", buffering=buffering) as fo:
+            return run_reader(fo, want_states=True)
+    if kind.startswith("short"):
+        chunk = int(kind[5:])
+        return run_reader(io.BufferedReader(ShortRaw(data, chunk), buffer_size=max(16, min(chunk * 3, 8192))), want_states=True)
+    if kind == "pipe":
+        import threading
+        rfd, wfd = os.pipe()
+        def feed():
+            try:
+                with os.fdopen(wfd, "wb") as w:
+                    for i in range(0, len(data), 1000): w.write(data[i:i + 1000]); w.flush()
+            except BrokenPipeError:
+                pass
+        t = threading.Thread(target=feed); t.start()
+        try:
+            with os.fdopen(rfd, "rb") as fo:
+                return run_reader(fo, want_states=True)
+        finally:
+            t.join()
+    raise ValueError(kind)
+
+
+def padded_flows(specs, j, B, delta):
+    """flows from specs with the FIRST one padded (comment, byte by byte) until record j starts at offset = delta (mod B),
+    i.e. its length prefix lands `delta` bytes after / before a multiple of the buffer size"""
+    flows = [build_flow(sp) for sp in specs]
+    base = flows[0].comment or ""
+    pad = 0
+    for _ in range(40):
+        flows[0].comment = base + "p" * pad
+        data, bounds = write_flows(flows)
+        off = (bounds[j] - delta) % B
+        if off == 0: break
+        pad += B - off
+    return flows, data, bounds
+
+
+# ------------------------------------------------------------------------------------------------
 # histories: several loaded flows that share EQUAL nested values; one of them is changed, the others must not notice
 # ------------------------------------------------------------------------------------------------
 HIST_OPS = ["revert", "set_state", "cert_inplace", "conn_set_state", "headers", "messages", "addr", "metadata", "backup_then_edit"]
@@ -757,7 +818,9 @@ class Check(PropertyCheck):
                   "version check (bytes/str key precedence, int/bool/tuple normalisation, converter-graph lookup from Gen/C38) and "
                   "Flow.__types[state['type']] — a record the gate rejects ends the read with FlowReadException after exactly the flows "
                   "before it (rejected_record_stops_reader) and a record passes only with the current version and a registered type "
-                  "(gate_pass_current_and_registered). The model is tied to the code differentially on values, raw/mutated files and real flows "
+                  "(gate_pass_current_and_registered); load written against a `read` environment (read(1) per prefix byte, read(n), read(1)) on a "
+                  "buffered reader over ANY segmentation of the stream equals load on the whole content "
+                  "(read_chunk_independent, load_chunk_independent, load_same_for_all_segmentations). The model is tied to the code differentially on values, raw/mutated files and real flows "
                   "of every type; from_state∘get_state equality of flows is validated by the harness, not modelled.")
     level_note = ("trusted: Lean kernel; the model/implementation tie is differential (random + defect-seeded inputs, not "
                   "exhaustive); float literals are tokens (Python float()/repr() assumed to round-trip; the model only decides "
@@ -784,7 +847,10 @@ class Check(PropertyCheck):
             "tnetstring-shaped soups with seeded defects (signed/padded/underscored lengths, literal grammars, UTF-8 edge "
             "cases, unhashable keys, wrong tags) and random bytes; deep: nesting around the measured recursion limit; flows: "
             "1-4 flows of random types with every serialised field randomised, written with FlowWriter and read back; mut: "
-            "flow files after byte-level and state-level mutations, some through real files with huge length prefixes; hist: "
+            "flow files after byte-level and state-level mutations, some through real files with huge length prefixes; fobj: multi-flow files "
+            "whose first flow is padded byte by byte so that the next record's length prefix lands on every offset from 14 before to 2 "
+            "after a multiple of the buffer size, read through real file objects (open() with default / 16 / 64 / 4096 / no buffering, "
+            "BufferedReader over a raw stream with short reads of 1 / 7 / 4096 bytes, a pipe); hist: "
             "2-4 flows of mixed types that carry EQUAL nested values (same certificate PEMs, address tuples, header lists, metadata), "
             "some with a backup whose nested values differ, are written and loaded twice; ONE loaded flow then goes through 1-3 ordinary "
             "actions (revert, set_state from a donor, in-place Cert.set_state, connection set_state, header / message / address / metadata "
@@ -887,6 +953,10 @@ class Check(PropertyCheck):
                                           **({"file": 1} if rng.chance(0.03) else {})}
             elif c < 0.46 * heavy + 0.01: yield {"k": "deep", "seed": seed}
             elif c < 0.46 * heavy + 0.07: yield {"k": "hist", "seed": seed}
+            elif c < 0.46 * heavy + 0.12:
+                B = rng.choice([4096, 4096, 8192, 64, 16, 1000])
+                yield {"k": "fobj", "specs": rspecs(rng, n=rng.choice([2, 2, 3]), plain_p=0.7), "j": 1, "B": B,
+                       "delta": rng.randint(-14, 2), "how": rng.pick(FOBJ_KINDS)}
             elif rng.chance(0.5): yield {"k": "val", "seed": seed}
             else: yield {"k": "raw", "seed": seed, **({"file": 1} if rng.chance(0.05) else {})}
 
@@ -897,6 +967,13 @@ class Check(PropertyCheck):
         yield {"k": "flows", "specs": [{"t": t, "seed": 3} for t in FLOW_TYPES]}
         for op in HIST_OPS:
             yield {"k": "hist", "seed": 11, "ops": [op], "victim": 0}
+        # the second record's length prefix on every offset around the buffer boundary, through every kind of file object
+        two = [{"t": "tcp", "seed": 1, "plain": 1}, {"t": "http", "seed": 2, "plain": 1}]
+        for delta in range(-14, 3):
+            for how in ("open", "open4096", "short4096"):
+                yield {"k": "fobj", "specs": two, "j": 1, "B": 4096, "delta": delta, "how": how}
+        for how in FOBJ_KINDS:
+            yield {"k": "fobj", "specs": two + [{"t": "dns", "seed": 3, "plain": 1}], "j": 2, "B": 8192, "delta": -3, "how": how}
         for e in ("pop", "load", "reader"):
             for delta in (-2, -1, 0, 1, 2, 40):
                 yield {"k": "deep", "entry": e, "delta": delta, "seed": 0}
@@ -1006,6 +1083,18 @@ class Check(PropertyCheck):
             return {"read": res, "n": len(flows), "equal": ok, "diff": diff, "read2": res2, "equal2": ok2,
                     "records_hex": [hx(data[a:b]) for a, b in zip(bounds, bounds[1:])],
                     "wires": [to_wire(s) for s in states], "types": [s["type"] for s in states]}
+        if k == "fobj":
+            flows, data, bounds = padded_flows(case["specs"], case["j"], case["B"], case["delta"])
+            want = [state_canon(f.get_state()) for f in flows]
+            d = tempfile.mkdtemp(prefix="c36-")
+            try:
+                res, states = read_through(case["how"], data, d)
+            finally:
+                import shutil
+                shutil.rmtree(d, ignore_errors=True)
+            ok = [state_canon(a) == b for a, b in zip(states, want)]
+            return {"read": res, "n": len(flows), "equal": ok, "diff": None if all(ok) else self.first_diff(flows[ok.index(False)].get_state(), states[ok.index(False)]),
+                    "bounds": bounds, "len": len(data), "data_hex": hx(data) if len(data) <= 12000 else None}
         if k == "hist":
             flows, donors, plan = build_hist(case)
             want = [state_canon(f.get_state()) for f in flows]          # what is written: the reference for every check below
@@ -1118,6 +1207,14 @@ class Check(PropertyCheck):
                     fails.append(f"second save/load generation differs: {obs['read2']}")
         elif k == "mut":
             reader_ok(obs["read"])
+        elif k == "fobj":
+            # the same sentence as for `flows`; the file reaches the reader through a real file object
+            reader_ok(obs["read"])
+            if not fails:
+                if obs["read"] != [obs["n"], "clean"]:
+                    fails.append(f"wrote {obs['n']} flows (records at {obs['bounds']}), read back {obs['read']} through {case['how']}")
+                elif not all(obs["equal"]):
+                    fails.append(f"flow #{obs['equal'].index(False)} state differs after load through {case['how']}: {obs['diff']}")
         elif k == "hist":
             # "saving them to a flow file and loading it back yields flows with identical state in the same order" — for every
             # flow of the file, whatever was done to ANOTHER loaded flow in the meantime: state read back == state written
@@ -1163,7 +1260,12 @@ class Check(PropertyCheck):
             # allocation limit of this machine, inferred from the run: MemoryError was observed iff the claimed
             # record length exceeds it (in-memory files never fail to "allocate")
             mem = self._mem_limit(obs["load"], unhx(h))
-            return [f"pop {D_NORMAL} {h}", f"load {mem} {D_NORMAL} {h}", f"read {mem} {D_NORMAL} {obs['outcomes']} {h}"]
+            # the same content through the model's buffered reader over a random segmentation (cuts also inside the length prefix)
+            n = len(unhx(h))
+            rr = random.Random(n * 31 + (unhx(h)[0] if n else 0))
+            cuts = sorted(set([c for c in (1, 2, 3) if c < n and rr.random() < 0.5] + [rr.randrange(n) for _ in range(rr.choice([0, 1, 3]))])) if n else []
+            return [f"pop {D_NORMAL} {h}", f"load {mem} {D_NORMAL} {h}", f"read {mem} {D_NORMAL} {obs['outcomes']} {h}",
+                    f"loadseg {mem} {D_NORMAL} {h} {','.join(map(str, cuts)) or '-'}"]
         if k == "deep":
             e, D, h = obs["entry"], obs["D"], obs["data_hex"]
             return [f"pop {D} {h}"] if e == "pop" else [f"load {BIG} {D} {h}"]
@@ -1172,6 +1274,9 @@ class Check(PropertyCheck):
             allhex = "".join(h for h in obs["records_hex"] if h != "-") or "-"
             out.append(f"read {BIG} {D_NORMAL} {'o' * obs['n']} {allhex}")
             return out
+        if k == "fobj":
+            if obs["data_hex"] is None: return None
+            return [f"read {BIG} {D_NORMAL} {'o' * obs['n']} {obs['data_hex']}"]
         if k == "hist":
             return None          # histories are judged by the oracle alone (the codec/reader tie runs on the other kinds)
         if k == "mut":
@@ -1205,7 +1310,7 @@ class Check(PropertyCheck):
         if k == "val":
             return {"dumps": replies[0], "enc": replies[1], "pop": res(replies[2]), "load": res(replies[3])}
         if k == "raw":
-            return {"pop": res(replies[0]), "load": res(replies[1]), "read": replies[2]}
+            return {"pop": res(replies[0]), "load": res(replies[1]), "read": replies[2], "loadseg": res(replies[3])}
         if k == "deep":
             r = replies[0].split(" ")
             if case.get("entry", self._obs(case)["entry"]) == "reader":
@@ -1213,7 +1318,7 @@ class Check(PropertyCheck):
             return r[0] if r[0] == "ok" else " ".join(r[:2])
         if k == "flows":
             return {"records": replies[:-1], "read": replies[-1]}
-        if k == "mut":
+        if k in ("mut", "fobj"):
             return replies[0]
 
     def impl_view(self, case, obs):
@@ -1223,7 +1328,7 @@ class Check(PropertyCheck):
         if k == "val":
             return {"dumps": obs["dumps_hex"], "enc": obs["dumps_hex"], "pop": obs["pop"], "load": obs["load"]}
         if k == "raw":
-            return {"pop": obs["pop"], "load": obs["load"], "read": rd(obs["read"])}
+            return {"pop": obs["pop"], "load": obs["load"], "read": rd(obs["read"]), "loadseg": obs["load"]}
         if k == "deep":
             r = obs["res"]
             if obs["entry"] == "reader":
@@ -1231,6 +1336,8 @@ class Check(PropertyCheck):
             return r[0] if r[0] == "ok" else "err " + r[1]
         if k == "flows":
             return {"records": obs["records_hex"], "read": f"{obs['read'][0]} {obs['read'][1]} {'o' * obs['n'] or '-'}"}
+        if k == "fobj":
+            return f"{obs['read'][0]} {obs['read'][1]} {'o' * obs['n']}"
         if k == "mut":
             return rd(obs["read"])
 
@@ -1264,6 +1371,8 @@ class Check(PropertyCheck):
             for sp in case["specs"]: out.append("flow:" + sp["t"] + (":stock" if sp.get("plain") else ""))
         elif k == "deep":
             out.append("deep:%s:%s" % (obs["entry"], obs["res"][0] if obs["res"][0] == "ok" else obs["res"][1]))
+        elif k == "fobj":
+            out.append("fobj:" + case["how"]); out.append("fobj:B%d" % case["B"]); out.append("fobj:delta%+d" % case["delta"])
         elif k == "hist":
             for op in obs["ops"]: out.append("hist:" + op)
             out.append("hist:victim-has-backup:%s" % obs["backups"][obs["victim"]])
